@@ -22,6 +22,8 @@ PROFILES = [
     ('kern_core', {'min_spines': 6, 'max_spines': 11, 'measures': (2, 4), 'rows': (1, 2), 'p_split': 0.03, 'max_width': 14}),
     # nested splits (three and more sub-spines of one spine) re-joined before the barline, in scores of several spines
     ('kern_core', {'min_spines': 2, 'max_spines': 3, 'p_split': 0.45, 'p_consecutive_ops': 0.7, 'measures': (3, 5), 'rows': (2, 4)}),
+    # many field comments with hostile text (blanks, quotes, non-ASCII, form feed / U+2028 inside a comment)
+    ('kern_core', {'p_fcomment': 0.45, 'hostile_text': 1.0, 'boundary_text': 0.4, 'measures': (3, 6), 'max_spines': 2}),
     # page bounding boxes (*xywh) before the first notes of a score without opening barline, and inside measures
     ('kern_core', {'p_bbox': 0.6, 'opening_barline': 'never', 'max_spines': 2, 'measures': (2, 5)}),
     # invisible barlines (=1-, =-): they delimit measures like drawn ones, and the export replaces them by nulls
